@@ -16,7 +16,12 @@ Inductive case :=
    what reason did the v5 PUBACK carry, and the SUBACK code of the filter only authenticator j forbids;
    finally: a session that was connected under the same client id before a REFUSED attempt is still served *)
 | CChain (verdicts : list bool) (v5 : bool) (connack : N)
-         (routed retained : list bool) (puback suback : list N) (undisturbed : bool) (ran : bool).
+         (routed retained : list bool) (puback suback : list N) (undisturbed : bool) (ran : bool)
+(* publishes of one v5 connection (topic number or alias only, alias or 0) under a write ACL that forbids topic 9;
+   observed per publish: 10+t routed to topic t | 1 refused, not routed | 2 the connection was closed *)
+| CAlias (ps : list (option N * N)) (obs : list N) (ran : bool).
+
+Definition acode (v : averdict) : N := match v with ARouted t => 10 + t | ADenied => 1 | AProtoErr => 2 end.
 
 Fixpoint list_eqb {A} (e : A -> A -> bool) (a b : list A) : bool :=
   match a, b with
@@ -46,6 +51,8 @@ Definition case_ok (c : case) : bool :=
           && list_eqb N.eqb puback (map (fun a : bool => if a then 0 else (if v5 then 135 else 0)) allowed)
           && list_eqb N.eqb suback (map (fun a : bool => if a then 1 else (if v5 then 135 else 128)) allowed)
       end
+  | CAlias ps obs ran =>
+      ran && list_eqb N.eqb (map acode (alias_run (fun t => negb (t =? 9)) [] ps)) obs
   end.
 
 Fixpoint mismatches_from (i : nat) (cs : list case) : list nat :=
